@@ -32,11 +32,9 @@ Definition sd_duration (n : bytes) (d : directives) : option Z :=
 (* ---------- age and lifetime (RFC 9111 §4.2) ---------- *)
 Definition spec_time (v : bytes) : option Z := raw_time v.
 
-(* the Age value a stored response was received with: the harness mirrors it in X-Ghost-Age, which no
-   cache logic touches *)
+(* the Age value a stored response was received with (delta-seconds; anything else counts as absent) *)
 Definition spec_age_value (h : headers) : Z :=
-  let a := hget (bs "X-Ghost-Age") h in
-  if all_digits a && negb (beq a []) then sat_ns (digits_val 0 a) else 0.
+  match spec_delta (hget (bs "Age") h) with Some a => sat_ns a | None => 0 end.
 
 Definition spec_current_age (h : headers) (request_time response_time now : Z) : Z :=
   let apparent :=
@@ -44,10 +42,10 @@ Definition spec_current_age (h : headers) (request_time response_time now : Z) :
     | Some d => Z.max 0 (Z.min max64 (response_time - d))
     | None => 0
     end in
-  let delay := Z.max 0 (response_time - request_time) in
+  let delay := Z.max 0 (Z.min max64 (response_time - request_time)) in
   let corrected := sat_add (spec_age_value h) delay in
   let initial := Z.max apparent corrected in
-  sat_add initial (Z.max 0 (now - response_time)).
+  sat_add initial (Z.max 0 (Z.min max64 (now - response_time))).
 
 Definition spec_heuristic_status (s : Z) : bool :=
   (s =? 200) || (s =? 203) || (s =? 204) || (s =? 206) || (s =? 300) || (s =? 301) || (s =? 308) ||
@@ -58,8 +56,8 @@ Definition spec_lifetime_with (heuristic_ok : Z -> bool) (status : Z) (h : heade
   match sd_arg (bs "max-age") cc with
   | Some arg => match spec_delta arg with Some s => sat_ns s | None => 0 end
   | None =>
-      match hvalues (bs "Expires") h with
-      | ex :: _ =>
+      match hget (bs "Expires") h with
+      | (_ :: _) as ex =>
           match spec_time ex, spec_time (hget (bs "Date") h) with
           | Some e, Some d => if d <? e then Z.min max64 (e - d) else 0
           | _, _ => 0
@@ -238,7 +236,7 @@ Definition fresh_enough (s : stored_view) (q : request) (now : Z) : bool :=
   let life := match sd_duration (bs "max-age") rcc with Some m => Z.min life0 m | None => life0 end in
   let age := sv_age s now in
   let min_fresh := match sd_duration (bs "min-fresh") rcc with Some m => m | None => 0 end in
-  sat_add age min_fresh <? life.
+  (age <? life) && (sat_add age min_fresh <=? life).
 
 (* staleness below an allowance w; an allowance too large to represent is unlimited *)
 Definition within_window (age life w : Z) : bool :=
